@@ -6,7 +6,7 @@ from fractions import Fraction as Q
 import alg
 from alg import Expr, ZERO, ONE, IMAG, as_expr
 from front import AnalysisError
-from interp import Interp, Tup, Arr, SymArr, Unknown, Opaque, Facts, explore
+from interp import Interp, Tup, Arr, SymArr, Unknown, Opaque, Facts, explore, BOT
 import npsem
 from report import Result, Ob, eq_ob, req_ob
 import config_model as CM
@@ -598,6 +598,102 @@ def km_obligations(P):
     return obs
 
 
+def sector_window_obligations(P, hmax=359):
+    """R-SECTOR: the smoothing window of estimateZ0 is circular.  The loop body is interpreted for a generic sector kk, a generic
+    observation with wind direction w and a symbolic half-width h; every comparison forks, so each explored path is a
+    conjunction of linear constraints over (kk, w, h) together with the decision whether the observation enters the median.
+    With exact Fourier-Motzkin elimination each path is checked against  selected <=> exists m in {-1,0,1}:
+    kk - h <= w + 360 m < kk + 1 + h  on the domain 0 <= kk <= 359, 0 <= w < 360, 1 <= h <= hmax."""
+    import lin
+    from fractions import Fraction as Q_
+
+    obs = []
+    site = "src/bldfm/ffm_kormann_meixner.py::estimateZ0"
+    zm, ws, wd, us, mo = (SymArr(n, 1, shape=(alg.sym("n_obs", pos=True, integer=True),), pos=(n != "mo_obs" and n != "wd_obs")) for n in ("zm_obs", "ws_obs", "wd_obs", "ustar_obs", "mo_obs"))
+    facts = Facts()
+    facts.refine(mo.val, {"+"})
+    h = alg.sym("half_wd_win", pos=True, integer=True)
+    facts.refine(h - ONE, {"+", "0"})
+    calls = []
+
+    def nanmedian(I, args, kwargs, node):
+        x = args[0]
+        sel = None
+        if isinstance(x, Arr):
+            sel = x.val is not BOT
+            if isinstance(x.val, Unknown):
+                sel = None
+        calls.append((sel, list(I.constraints), I.loop_stack[-1] if I.loop_stack else None, getattr(node, "lineno", 0)))
+        return alg.sym("sector_median")
+
+    try:
+        res = CM.run_paths(P, "bldfm.ffm_kormann_meixner", "estimateZ0", [zm, ws, wd, us, mo], {"half_wd_win": h}, facts=facts,
+                           stubs={"numpy.nanmedian": nanmedian, "numpy.median": nanmedian}, max_paths=20000)
+    except AnalysisError as e:
+        return [req_ob("R-SECTOR", site, "the sector loop is interpretable", None, detail=str(e))]
+    if not calls or any(c[0] is None or c[2] is None for c in calls):
+        return [req_ob("R-SECTOR", site, "the sector loop takes the median of a masked selection inside a loop over sectors", None,
+                       detail="%d median calls, undecided selections: %d" % (len(calls), sum(1 for c in calls if c[0] is None)))]
+    w = wd.val
+    wa, ha = _atom(w), _atom(h)
+    seen = set()
+    n_checked = 0
+    bad = []
+    for sel, constraints, L, line in calls:
+        key = (sel, tuple((repr(e), op, d) for e, op, d in constraints))
+        if key in seen:
+            continue
+        seen.add(key)
+        kk = L.rng.start + alg.atom_expr(L.ivar) * L.rng.step
+        ka = L.ivar
+        base = []
+        okb = True
+        for cexpr, op in ((alg.atom_expr(ka), ">="), (kk - L.rng.stop, "<"), (w, ">="), (w - 360, "<"), (h - ONE, ">="), (h - alg.const(hmax), "<=")):
+            base.extend(lin.cons(cexpr, op)[0])
+        ints = (ka, ha)
+        dnfs = []
+        for e, op, d in constraints:
+            c = lin.cons(e, op if d else lin.NEGATE[op], ints)
+            if c is None:
+                if {wa, ha, ka} & set(e.atoms()):
+                    okb = False
+                continue  # constraint on other quantities (the outlier test): independent of (kk, w, h)
+            if len(c) == 1:
+                base.extend(c[0])
+            else:
+                dnfs.append(c)
+        if not okb:
+            obs.append(req_ob("R-SECTOR", site, "window conditions are linear in sector, direction and half-width", None, detail=str(constraints)[:300]))
+            continue
+        if not lin.any_feasible(base, dnfs):
+            continue  # this combination of outcomes cannot occur
+        n_checked += 1
+        win = []
+        for mshift in (-1, 0, 1):
+            ws_ = w + alg.const(360 * mshift)
+            win.append((ws_ - (kk - h), ws_ - (kk + ONE + h)))  # lower: >= 0, upper: < 0
+        if sel:
+            # selected but outside every shifted window?
+            neg = [[lin.cons(lo, "<")[0], lin.cons(up, ">=")[0]] for lo, up in win]
+            if lin.any_feasible(base, dnfs + neg):
+                bad.append(("an observation outside the circular window [kk - h, kk + 1 + h) is included", constraints, line))
+        else:
+            for (lo, up), mshift in zip(win, (-1, 0, 1)):
+                if lin.any_feasible(base + lin.cons(lo, ">=")[0] + lin.cons(up, "<")[0], dnfs):
+                    bad.append(("an observation inside the window (through the %s) is left out" % {-1: "wrap below 0 deg", 0: "direct range", 1: "wrap above 360 deg"}[mshift], constraints, line))
+                    break
+    obs.append(req_ob("R-SECTOR", site, "every feasible combination of comparison outcomes in the sector loop was examined", n_checked >= 4, detail="%d feasible path conditions" % n_checked))
+    if bad:
+        for what, constraints, line in bad[:3]:
+            cond = " and ".join("%s %s 0" % (e, op if d else lin.NEGATE[op]) for e, op, d in constraints if lin.cons(e, op) is not None)
+            obs.append(req_ob("R-SECTOR", site, "the sector window is circular: an observation enters the median of sector kk exactly when its direction lies within half_wd_win of the sector, across north as well (1 <= half_wd_win <= %d)" % hmax,
+                              False, detail="%s when %s" % (what, cond[:400]), key={"clause": "circular-window"}))
+    else:
+        obs.append(req_ob("R-SECTOR", site, "the sector window is circular: an observation enters the median of sector kk exactly when its direction lies within half_wd_win of the sector, across north as well (1 <= half_wd_win <= %d)" % hmax,
+                          True, key={"clause": "circular-window"}))
+    return obs
+
+
 def check_C19(P, tier):
     R = Result("C19", tier)
     R.min_obligations = 30
@@ -606,9 +702,13 @@ def check_C19(P, tier):
                      "crosswind distribution times the cell area written from Kormann & Meixner (2001); cells that are not upwind, and the U<0 early return, hold exactly "
                      "zero; the value is even in the crosswind coordinate; with a wind direction the coordinates are rotated by theta + pi wd/180 - pi/2 about the "
                      "receptor; (R-DTYPE) no helper stores a float into storage whose dtype is inherited from a caller-supplied scalar, so integers and floats behave "
-                     "alike; estimateZ0 inverts the same diabatic law. The incomplete-gamma mass limit and the median smoothing statistics are not decided.")
+                     "alike; estimateZ0 inverts the same diabatic law; (R-SECTOR) its sector loop is interpreted for a generic sector kk, observation direction w and symbolic half-width h "
+                     "with every comparison forked, and each feasible conjunction of the (linear) comparison outcomes is checked by exact Fourier-Motzkin elimination against "
+                     "'selected <=> exists m in {-1,0,1}: kk-h <= w+360m < kk+1+h' on 0<=kk<=359, 0<=w<360, 1<=h<=359 - the window is circular, which is what makes the "
+                     "smoothed estimate invariant under a common rotation by whole degrees. The incomplete-gamma mass limit and the median itself (numpy.nanmedian, trusted) are not decided.")
     R.trusted = [TRUST, "scipy.special.gamma is the Gamma function", "physical domain: zm, z0, ws, ustar, sigma_v, grid_res > 0"]
     R.add(km_obligations(P))
+    R.add(sector_window_obligations(P))
     o2, km = similarity_obligations(P)
     R.add([o for o in o2 if "ffm_kormann_meixner" in o.site and o.rule == "R-SIBLING"])
     R.analysed = {"files": ["src/bldfm/ffm_kormann_meixner.py"], "functions": ["estimateFootprint", "estimateZ0", "_phiM", "_phiC", "_psiM", "_mParam", "_nParam"], "paths": 0}
